@@ -40,7 +40,7 @@ class OraSequence(DBObject):
         table_name = table.name
         if name is not None: sequence.name = name
         elif isinstance(table_name, str): sequence.name = table_name + '_SEQ'
-        else: sequence.name = tuple(table_name[:-1]) + (table_name[0] + '_SEQ',)
+        else: sequence.name = tuple(table_name[:-1]) + (table_name[-1] + '_SEQ',)
     def exists(sequence, provider, connection, case_sensitive=True):
         if case_sensitive: sql = 'SELECT sequence_name FROM all_sequences ' \
                                  'WHERE sequence_owner = :so and sequence_name = :sn'
